@@ -6,32 +6,35 @@
 (* member is allowed).                                                                              *)
 EXTENDS Integers, Sequences, FiniteSets, TraceLib
 
-VARIABLES l, phase, queued, fin1, req2, caps
-vars == <<l, phase, queued, fin1, req2, caps>>
-Init == l = 1 /\ phase = "run1" /\ queued = <<>> /\ fin1 = {} /\ req2 = {} /\ caps = {}
+VARIABLES l, phase, queued, fin1, req2, caps, needs
+vars == <<l, phase, queued, fin1, req2, caps, needs>>
+Init == l = 1 /\ phase = "run1" /\ queued = <<>> /\ fin1 = {} /\ req2 = {} /\ caps = {} /\ needs = <<>>
 
 Next ==
   /\ l <= TraceLen
   /\ LET e == TraceLog[l] IN
-     CASE e.ev = "c04.phase" -> phase' = e.phase /\ UNCHANGED <<queued, fin1, req2, caps>>
-       [] e.ev = "queued" -> queued' = (e.id :> e.u) @@ queued /\ UNCHANGED <<phase, fin1, req2, caps>>
-       [] e.ev = "lq.finish.recv" /\ phase = "run1" -> fin1' = fin1 \cup {e.id} /\ UNCHANGED <<phase, queued, req2, caps>>
-       [] e.ev = "req" /\ phase = "run2" -> req2' = req2 \cup {e.url} /\ UNCHANGED <<phase, queued, fin1, caps>>
+     CASE e.ev = "c04.phase" -> phase' = e.phase /\ UNCHANGED <<queued, fin1, req2, caps, needs>>
+       [] e.ev = "queued" -> queued' = (e.id :> e.u) @@ queued /\ UNCHANGED <<phase, fin1, req2, caps, needs>>
+       [] e.ev = "lq.finish.recv" /\ phase = "run1" -> fin1' = fin1 \cup {e.id} /\ UNCHANGED <<phase, queued, req2, caps, needs>>
+       [] e.ev = "req" /\ phase = "run2" -> req2' = req2 \cup {e.url} /\ UNCHANGED <<phase, queued, fin1, caps, needs>>
+       [] e.ev = "site.assets" ->   \* the page requisites of a seed (all answer 200): part of "its captures"
+            /\ needs' = (e.id :> {e.urls[i] : i \in 1..Len(e.urls)}) @@ needs /\ UNCHANGED <<phase, queued, fin1, req2, caps>>
        [] e.ev = "warc.left" ->
             /\ Check(e.bad = 0 /\ ~HasKey(e, "err"), l, "WARC left on disk is not readable record by record")
             /\ caps' = caps \cup {e.captures[i].uri : i \in 1..Len(e.captures)}
-            /\ UNCHANGED <<phase, queued, fin1, req2>>
+            /\ UNCHANGED <<phase, queued, fin1, req2, needs>>
        [] e.ev = "rows" /\ e.when = "after-run2" ->
             /\ \A id \in DOMAIN queued :
                  IF id \in fin1
-                 THEN Check(queued[id] \in caps, l, "URL reported finished before the crash has no capture in the WARC files left on disk id=" \o id)
+                 THEN /\ Check(queued[id] \in caps, l, "URL reported finished before the crash has no capture in the WARC files left on disk id=" \o id)
+                      /\ Check(id \notin DOMAIN needs \/ needs[id] \subseteq caps, l, "URL reported finished before the crash: a page requisite fetched for it has no capture in the WARC files left on disk id=" \o id)
                  ELSE Check(queued[id] \in req2, l, "URL that was queued and not finished is not crawled again after the restart id=" \o id)
             /\ Check(\A i \in 1..Len(e.rows) : e.rows[i].status # "CLAIMED", l, "a row stays stranded as handed-out (CLAIMED) after the restarted crawl went idle")
-            /\ UNCHANGED <<phase, queued, fin1, req2, caps>>
+            /\ UNCHANGED <<phase, queued, fin1, req2, caps, needs>>
        [] e.ev = "init.reset" ->   \* the restart step alone, called right after the claim (no second in between)
             /\ Check(~HasKey(e, "err") /\ e.still_claimed = <<>>, l, "a row handed out just before the restart stays handed-out (CLAIMED) after the restart step")
-            /\ UNCHANGED <<phase, queued, fin1, req2, caps>>
-       [] OTHER -> UNCHANGED <<phase, queued, fin1, req2, caps>>
+            /\ UNCHANGED <<phase, queued, fin1, req2, caps, needs>>
+       [] OTHER -> UNCHANGED <<phase, queued, fin1, req2, caps, needs>>
   /\ l' = l + 1
 Spec == Init /\ [][Next]_vars
 Marked == Mark(l)
